@@ -77,14 +77,14 @@ Definition infer (temp : T) (cpl : list (nat * list T)) (K : nat) (S : nat -> na
   (X : nat -> nat -> T) (i : nat) : option (nat -> T) := infer_row temp cpl K S (X i).
 
 (* douglas.py::_init_params   feature_mask None -> every feature; else len(mask) must be d (ValueError ->
-   None), cut_points_list_ = [(i, normal(n_cuts)) for i in range(d) if feature_mask[i]] and a mask that
-   selects no feature is rejected (ValueError -> None).
+   None), a mask without any true entry is rejected (`not np.any(mask)`: ValueError -> None) and
+   cut_points_list_ = [(i, normal(n_cuts)) for i in range(d) if feature_mask[i]].
    The normal draws are an oracle: draw j = the j-th vector drawn. *)
 Definition used_features (d : nat) (mask : option (list bool)) : option (list nat) :=
   match mask with
   | None => Some (seq 0 d)
   | Some m => if length m =? d
-              then match filter (fun i => nth i m false) (seq 0 d) with [] => None | u => Some u end
+              then if existsb (fun b => b) m then Some (filter (fun i => nth i m false) (seq 0 d)) else None
               else None
   end.
 Definition init_cuts (d : nat) (mask : option (list bool)) (draw : nat -> list T) : option (list (nat * list T)) :=
@@ -93,9 +93,11 @@ Definition init_cuts (d : nat) (mask : option (list bool)) (draw : nat -> list T
 Definition num_leaf (n_cuts : nat) (cpl : list (nat * list T)) : nat := Nat.pow (S n_cuts) (length cpl).
 
 (* douglas.py::find_active_points (after check_array: at least one row and one column)
-     if X.shape[1] < len(cut_points_list_): raise ValueError
-     for (f, cuts) in cut_points_list_: feature = X[:, f]       (IndexError when f >= X.shape[1])
+     if X.shape[1] <= max(f for f, _ in cut_points_list_): raise ValueError     (max of nothing: ValueError too)
+     for (f, cuts) in cut_points_list_: feature = X[:, f]       (IndexError when f >= X.shape[1]: excluded by the guard)
         if np.any((cuts > feature.min()) & (cuts < feature.max())): active += [f]            *)
+Fixpoint py_max_nat (l : list nat) : option nat :=
+  match l with [] => None | a :: r => match py_max_nat r with None => Some a | Some m => Some (Nat.max a m) end end.
 Fixpoint colmin (n : nat) (col : nat -> T) : T :=
   match n with O => n0 o | S O => col O | S m => nmin o (colmin m col) (col m) end.
 Fixpoint colmax (n : nat) (col : nat -> T) : T :=
@@ -107,9 +109,51 @@ Definition active_feature (nrows : nat) (X : nat -> nat -> T) (fc : nat * list T
 Inductive fap_result := FapValueError | FapIndexError | FapOk (l : list nat).
 Definition find_active_points (nrows ncols : nat) (X : nat -> nat -> T) (cpl : list (nat * list T)) : fap_result :=
   if (nrows =? 0) || (ncols =? 0) then FapValueError
-  else if ncols <? length cpl then FapValueError
-  else if forallb (fun fc => fst fc <? ncols) cpl
-       then FapOk (map fst (filter (active_feature nrows X) cpl))
-       else FapIndexError.
+  else match py_max_nat (map fst cpl) with
+       | None => FapValueError
+       | Some mx =>
+         if ncols <=? mx then FapValueError
+         else if forallb (fun fc => fst fc <? ncols) cpl
+              then FapOk (map fst (filter (active_feature nrows X) cpl))
+              else FapIndexError
+       end.
 End Douglas.
+(* ---- numpy / Python vocabulary of the regenerated definitions (Gen/DouglasRules.v, written by
+   translator/tr_douglas.py from the AST of douglas.py).  The generated file is straight Gallina over
+   these named list operations; Proofs/DouglasGen.v proves every generated definition equal to the
+   hand-written model above, for every number system.  No proofs here. ---- *)
+Fixpoint zip_with {A B C : Type} (f : A -> B -> C) (a : list A) (b : list B) : list C :=
+  match a, b with x :: a', y :: b' => f x y :: zip_with f a' b' | _, _ => [] end.
+(* reduce(f, l) without initial value: left fold seeded with the first item; TypeError (None) when empty *)
+Definition py_reduce {A : Type} (f : A -> A -> A) (l : list A) : option A :=
+  match l with [] => None | b :: r => Some (fold_left f r b) end.
+Section NumpyVocabulary.
+Context {T : Type} (o : NumOps T).
+(* np.linspace(start, start + num - 1, num, dtype=float64): unit step (the translator checks stop - start = num - 1) *)
+Definition np_linspace_unit (start num : nat) : list T := map (fun j => nofnat o (start + j)) (seq 0 num).
+Definition np_argsort (v : list T) : list nat := argsort o v.
+(* v[idx] with an integer index array *)
+Definition np_take (v : list T) (idx : list nat) : list T := map (fun i => nth i v (n0 o)) idx.
+Definition np_zeros (k : nat) : list T := repeat (n0 o) k.
+(* np.cumsum: r_0 = v_0, r_j = r_(j-1) + v_j *)
+Fixpoint cumsum_from (acc : T) (l : list T) : list T :=
+  match l with [] => [acc] | c :: r => acc :: cumsum_from (nadd o acc c) r end.
+Definition np_cumsum (l : list T) : list T := match l with [] => [] | a :: r => cumsum_from a r end.
+(* sklearn.utils.extmath.softmax on one row given as a list / as a function with its length *)
+Definition sk_softmax (l : list T) : list T := softmax_list o l.
+Definition sk_softmax_fn (K : nat) (z : nat -> T) : nat -> T := softmax_row o K z.
+(* v @ M for a vector v (list) and a matrix M with len(v) rows *)
+Definition np_vecmat (v : list T) (M : nat -> nat -> T) : nat -> T := leaf_logits o v M.
+(* column.min() / column.max() over the nrows entries of a column *)
+Definition np_min (nrows : nat) (col : nat -> T) : T := colmin o nrows col.
+Definition np_max (nrows : nat) (col : nat -> T) : T := colmax o nrows col.
+Definition np_any (l : list bool) : bool := existsb (fun b => b) l.
+(* sklearn check_array (defaults): at least one sample and one feature, else ValueError *)
+Definition sk_check_array_rejects (nrows ncols : nat) : bool := (nrows =? 0) || (ncols =? 0).
+(* X[:, f] for every f of idx: IndexError unless all f < X.shape[1] *)
+Definition np_columns_ok (ncols : nat) (idx : list nat) : bool := forallb (fun f => f <? ncols) idx.
+(* [(i, random_state.normal(size)) for i in idxs]: the j-th tuple built receives the j-th draw *)
+Definition py_comp_draw (idxs : list nat) (draw : nat -> list T) : list (nat * list T) :=
+  combine idxs (map draw (seq 0 (length idxs))).
+End NumpyVocabulary.
 (* EXTRACT: sort_cuts argsort bias bin_logits bins merge leaf infer_row infer used_features init_cuts num_leaf find_active_points *)
